@@ -165,3 +165,34 @@ Proof.
     destruct (lfind ext n); [discriminate|reflexivity].
 Qed.
 
+
+(* ---- BucketStore.Series ---- *)
+Theorem bucket_series_spec blocks drop ms l :
+  In l (bucket_series_labels blocks drop ms) ->
+  exists ext stored sl, In (ext, stored) blocks /\ In sl stored /\ l = present_bucket ext drop sl
+    /\ ext_loop mname mmatch ms ext <> None.
+Proof.
+  unfold bucket_series_labels. intros H. apply in_concat in H as [x [Hx Hl]].
+  apply in_map_iff in Hx as [[ext stored] [E Hb]]. subst x. unfold block_series_labels in Hl. cbn [fst snd] in Hl.
+  destruct (ext_loop mname mmatch ms ext) as [kept|] eqn:Ek; [|destruct Hl].
+  destruct kept as [|k0 kr]; [destruct Hl|].
+  apply in_map_iff in Hl as [sl [El Hs]]. apply filter_In in Hs as [Hs _].
+  exists ext, stored, sl. split; [exact Hb|]. split; [exact Hs|]. split; [symmetry; exact El | discriminate].
+Qed.
+
+(* every series of a BucketStore response carries the external labels of its block that were
+   not dropped (external value wins) and none of the dropped labels *)
+Corollary bucket_ext_override blocks drop ms l :
+  (forall b, In b blocks -> valid_ext (fst b)) ->
+  In l (bucket_series_labels blocks drop ms) ->
+  exists ext stored, In (ext, stored) blocks
+    /\ (forall n v, In (n, v) ext -> in_drop drop n = false -> lget l n = v)
+    /\ (forall n, in_drop drop n = true -> lhas l n = false).
+Proof.
+  intros Hv H. destruct (bucket_series_spec _ _ _ _ H) as (ext & stored & sl & Hb & Hs & El & _).
+  exists ext, stored. split; [exact Hb|]. pose proof (Hv _ Hb) as Hve. cbn [fst] in Hve. subst l. split.
+  - intros n v Hin Hd. unfold lget. rewrite present_bucket_spec, Hd by exact Hve.
+    pose proof (two_orders_agree ext drop sl n Hve) as T. rewrite present_bucket_spec, Hd in T by exact Hve.
+    destruct (ext_override ext drop sl Hve) as [O1 _]. specialize (O1 n v Hin Hd). unfold lget in O1. rewrite T in O1. exact O1.
+  - intros n Hd. unfold lhas. rewrite present_bucket_spec, Hd by exact Hve. reflexivity.
+Qed.
